@@ -175,6 +175,11 @@ class Mir:
         m = re.fullmatch(r"(.*?)\((.*)\)", e)
         if m and ("::" in m.group(1) or m.group(1)[0:1].islower()):   # call
             callee = _norm_callee(m.group(1))
+            if not self.rich and (callee in ("Option", "Result") or callee.startswith(("Option::", "Result::"))):
+                # combinator chains on Option / Result (map, map_or, unwrap_or, ...) are a leaf in construct
+                # fingerprints: `x.map(f).unwrap_or(d)` and `x.map_or(d, f)` must not differ (neutral patch N2);
+                # caller and supplier renderings keep them
+                return "{t}"
             args = [self.render(fn, a, depth - 1, seen) for a in _split_args(m.group(2))]
             if callee in COMMUTATIVE:
                 args.sort(key=lambda a: (re.sub(r"\{\w+\}", "{}", a), a))
